@@ -59,6 +59,9 @@ type VerifSimFault struct {
 	MoveLeader bool
 	// DelayMs delays the answer
 	DelayMs int
+	// LoseLeaderMs > 0: after handling, every partition of the request led by this broker has NO leader for that long
+	// (metadata answers LeaderNotAvailable), then this broker leads it again
+	LoseLeaderMs int
 }
 
 type VerifSimRequestInfo struct {
@@ -488,6 +491,17 @@ func (s *VerifSim) produce(broker int32, req *ProduceRequest, wire int) (encoder
 			if f.MoveLeader && known && int(p) < len(l) && l[p] == broker {
 				next := broker%int32(len(s.brokers)) + 1
 				l[p] = next
+			}
+			if f.LoseLeaderMs > 0 && known && int(p) < len(l) && l[p] == broker {
+				l[p] = -1
+				tt, pp, bb := t, p, broker
+				time.AfterFunc(time.Duration(f.LoseLeaderMs)*time.Millisecond, func() {
+					s.mu.Lock()
+					if !s.closed && s.leader[tt][pp] == -1 {
+						s.leader[tt][pp] = bb
+					}
+					s.mu.Unlock()
+				})
 			}
 		}
 	}
